@@ -263,7 +263,7 @@ def push (ext : Ext) : B → SVal → R B
       | .map p mm v offs ks vs => do
         let v' ← setValidity v (offs.length - 1) true
         let offs' ← duplicateLast offs
-        let (offs'', ks', vs') ← pushMapOps ext offs' ks vs ops
+        let (offs'', ks', vs') ← pushMapOps ext false offs' ks vs ops
         pure (.map p mm v' offs'' ks' vs')
       | .unknownVariant _ => fail "Unknown variant does not support serialize_map_start"
       | _ => notSupported "serialize_map_start")
@@ -397,15 +397,25 @@ def pushMapEntries (ext : Ext) : List Int → B → B → SEntries → R (List I
     let vs' ← push ext vs x
     pushMapEntries ext offs' ks' vs' rest
 
-def pushMapOps (ext : Ext) : List Int → B → B → SMapOps → R (List Int × B × B)
-  | offs, ks, vs, .nil => .ok (offs, ks, vs)
-  | offs, ks, vs, .key k rest => do
-    let offs' ← incrementLast true false offs 1
-    let ks' ← push ext ks k
-    pushMapOps ext offs' ks' vs rest
-  | offs, ks, vs, .value x rest => do
-    let vs' ← push ext vs x
-    pushMapOps ext offs ks vs' rest
+/-- `MapBuilder` receiving an arbitrary stream of `serialize_key` / `serialize_value` calls.  `pending` is
+`MapBuilder::key_pending` (reset by `serialize_map_start`, local to one map value): a key while a value is outstanding,
+a value without a key and an end with a key outstanding are refused BEFORE anything is touched; on a key the offset
+is incremented and the key pushed before the flag is set. -/
+def pushMapOps (ext : Ext) : Bool → List Int → B → B → SMapOps → R (List Int × B × B)
+  | pending, offs, ks, vs, .nil =>
+    if pending then fail "Invalid map: the last key has no value"
+    else .ok (offs, ks, vs)
+  | pending, offs, ks, vs, .key k rest =>
+    if pending then fail "Invalid map: a key was serialized before the value of the previous key"
+    else do
+      let offs' ← incrementLast true false offs 1
+      let ks' ← push ext ks k
+      pushMapOps ext true offs' ks' vs rest
+  | pending, offs, ks, vs, .value x rest =>
+    if !pending then fail "Invalid map: a value was serialized without a key"
+    else do
+      let vs' ← push ext vs x
+      pushMapOps ext false offs ks vs' rest
 end
 
 end SaModel.Build
